@@ -317,6 +317,52 @@ def worker(case, led):
                 led.check(False, f"post:TTNS.evolve[{method}]:total", "TTNS.evolve", f"purified tree raised {type(ex).__name__}: {ex}", (nmol, seed, method, "aux"), {"method": method}, {"nmol": nmol, "seed": seed})
 
 
+def w_tiny_norm(case, led):
+    """states of tiny norm (a weak component of a superposition, propagated with normalize=False): at full bond dimension the projector-splitting schemes still follow
+    the dense propagator to the accuracy they reach at unit norm (the local propagator's stopping rule must be relative to the vector it propagates)"""
+    _, seed = case
+    import scipy.linalg
+    from renormalizer import Op, BasisHalfSpin
+    from renormalizer.tn import TTNS, TTNO
+    from renormalizer.tn.treebase import BasisTree
+    from renormalizer.tn.node import TreeNodeBasis
+    from renormalizer.utils import EvolveConfig, EvolveMethod
+    np.random.seed(seed + 5)
+    rng = np.random.default_rng([seed, 1212])
+    n = 8
+    basis = [BasisHalfSpin(i) for i in range(n)]
+    root = TreeNodeBasis(basis[:4])
+    root.add_child(TreeNodeBasis(basis[4:]))
+    tree = BasisTree(root)
+    terms = []
+    for i in range(n):
+        j = (i + 1) % n
+        terms += [Op("sigma_x sigma_x", [i, j], 1.0), Op("sigma_+ sigma_-", [i, j], 0.8), Op("sigma_- sigma_+", [i, j], 0.8), Op("sigma_z sigma_z", [i, j], 0.6),
+                  Op("sigma_z", i, float(rng.uniform(0.2, 0.5)) * (i + 1))]
+    ttno = TTNO(tree, terms)
+    H = np.asarray(ttno.todense()).reshape(2 ** n, 2 ** n)
+    psi0 = TTNS.random(tree, 0, 16)
+    psi0.canonicalise()
+    for scale in (1.0, 1e-7):
+        for method in (EvolveMethod.tdvp_ps2, EvolveMethod.tdvp_ps):
+            for tau in (0.3, 2.0):
+                psi = psi0.copy()
+                psi.scale(scale, inplace=True)
+                v0 = np.asarray(psi.todense()).ravel().copy()
+                psi.evolve_config = EvolveConfig(method)
+                key = ("tiny", seed, scale, str(method), tau)
+                rep = {"tree": "two nodes x four spins", "scale": scale, "method": str(method), "tau": tau, "seed": seed}
+                try:
+                    out = psi.evolve(ttno, tau, normalize=False)
+                    ref = scipy.linalg.expm(-1j * tau * H) @ v0
+                    got = np.asarray(out.todense()).ravel()
+                    err = float(np.linalg.norm(got - ref) / np.linalg.norm(ref))
+                    led.check(err <= 1e-6, "post:TTNS.evolve:full_rank_exact_for_any_norm", "TTNS.evolve",
+                              f"{method}, state of norm {np.linalg.norm(v0):.1e}, tau={tau}: relative deviation from the dense propagator {err:.2e}", key, {"scale": scale}, rep)
+                except Exception as e:
+                    led.check(False, "post:TTNS.evolve:tiny_norm_total", "TTNS.evolve", f"raised {type(e).__name__}: {e}", key, {"scale": scale}, rep)
+
+
 def check(run):
     seeds = list(range(run.seed * 100, run.seed * 100 + (2 if run.tier == "quick" else 6)))
     cases = []
@@ -333,6 +379,7 @@ def check(run):
         cases.append(("aux", 1, s, run.tier))
         cases.append(("aux", 2, s, run.tier))
     run_cases(run, worker, cases)
+    run_cases(run, w_tiny_norm, [("tiny", run.seed + i) for i in range(1 if run.tier == "quick" else 3)])
     from props import C12_sym
     guarded(run, C12_sym.prove)
     # tree TDVP-PS / PS2: every local problem handed to the local propagator is the integrator's (call by contract at expm_krylov)
